@@ -1148,7 +1148,12 @@ func (dc *driverContextInsertion) transition(driver stateTableDriver, entry tabl
 			return
 		}
 		start := markedInsertIndex
-		glyphs := dc.insertionAction[start:]
+		var glyphs []GID
+		if int(start)+count <= len(dc.insertionAction) {
+			glyphs = dc.insertionAction[start:]
+		} else { // invalid insertion list
+			count = 0
+		}
 
 		before := flags&miMarkedInsertBefore != 0
 
@@ -1185,7 +1190,12 @@ func (dc *driverContextInsertion) transition(driver stateTableDriver, entry tabl
 			return
 		}
 		start := currentInsertIndex
-		glyphs := dc.insertionAction[start:]
+		var glyphs []GID
+		if int(start)+count <= len(dc.insertionAction) {
+			glyphs = dc.insertionAction[start:]
+		} else { // invalid insertion list
+			count = 0
+		}
 
 		before := flags&miCurrentInsertBefore != 0
 
